@@ -107,8 +107,37 @@ func Load(repo string, env []string, overlayFile string) (*Ctx, error) {
 			c.SSA[short(pp)] = sp
 		}
 	}
-	// index functions
-	for fn := range ssautil.AllFunctions(prog) {
+	// index functions: linker-style reachable set plus every declared function
+	// and method of the repo packages (unreferenced methods included)
+	all := ssautil.AllFunctions(prog)
+	var addFn func(fn *ssa.Function)
+	addFn = func(fn *ssa.Function) {
+		if fn == nil || all[fn] {
+			return
+		}
+		all[fn] = true
+		for _, a := range fn.AnonFuncs {
+			addFn(a)
+		}
+	}
+	for _, sp := range c.SSA {
+		for _, mem := range sp.Members {
+			switch m := mem.(type) {
+			case *ssa.Function:
+				addFn(m)
+			case *ssa.Type:
+				for _, t := range []types.Type{m.Type(), types.NewPointer(m.Type())} {
+					ms := prog.MethodSets.MethodSet(t)
+					for i := 0; i < ms.Len(); i++ {
+						if f := prog.MethodValue(ms.At(i)); f != nil && f.Synthetic == "" {
+							addFn(f)
+						}
+					}
+				}
+			}
+		}
+	}
+	for fn := range all {
 		if fn.Pkg == nil {
 			continue
 		}
